@@ -708,10 +708,49 @@ func plateScene(r *rand.Rand) (latgeo.LPath, latgeo.LPath) {
 	return p, q
 }
 
+// islandScene: both operands are archipelagos of 2-5 small rectangles or triangles in the slots of a 5x5 grid of 4x4
+// cells; a contour may reach into the neighbouring slot, so bounding boxes of contours of the same and of the other
+// operand touch in every combination (none, same operand only, other operand only, chains) with and without the
+// contours themselves crossing. P uses odd and Q even coordinates: nothing is degenerate.
+func islandScene(r *rand.Rand) (latgeo.LPath, latgeo.LPath) {
+	mk := func(par int) latgeo.LPath {
+		var p latgeo.LPath
+		for _, slot := range r.Perm(25)[:2+r.Intn(4)] {
+			ox, oy := 4*(slot%5), 4*(slot/5)
+			x0, y0 := ox+par, oy+par
+			w, h := 2, 2
+			if r.Intn(3) == 0 && x0+4 <= bandN {
+				w = 4
+			}
+			if r.Intn(3) == 0 && y0+4 <= bandN {
+				h = 4
+			}
+			var ct latgeo.LContour
+			switch r.Intn(3) {
+			case 0:
+				ct = latgeo.LContour{{x0, y0}, {x0 + w, y0}, {x0, y0 + h}}
+			case 1:
+				ct = latgeo.LContour{{x0, y0}, {x0 + w, y0 + h}, {x0, y0 + h}}
+			default:
+				ct = latgeo.LContour{{x0, y0}, {x0 + w, y0}, {x0 + w, y0 + h}, {x0, y0 + h}}
+			}
+			if r.Intn(2) == 0 {
+				for i, j := 1, len(ct)-1; i < j; i, j = i+1, j-1 {
+					ct[i], ct[j] = ct[j], ct[i]
+				}
+			}
+			p = append(p, ct)
+		}
+		return p
+	}
+	return mk(1), mk(0)
+}
+
 func (d Driver) traces(c *core.Ctx) {
 	d.tracesN(c, sceneN, c.Pick(300, 6000), "scene", func(r *rand.Rand) (latgeo.LPath, latgeo.LPath) { return randScenePath(r), randScenePath(r) })
 	d.tracesN(c, bandN, c.Pick(24, 400), "bands", bandScene)
 	d.tracesN(c, bandN, c.Pick(40, 600), "plate", plateScene)
+	d.tracesN(c, bandN, c.Pick(40, 600), "islands", islandScene)
 }
 
 func (d Driver) tracesN(c *core.Ctx, latticeN, n int, space string, gen func(r *rand.Rand) (latgeo.LPath, latgeo.LPath)) {
